@@ -325,7 +325,7 @@ Proof.
   - cbn [session] in E. inversion Hr as [|? ? [Hpre Hworks] Hrest]; subst.
     set (t := match i_tock r with Some x => x | None => tock end) in *.
     destruct (do_real VSync fuel t tm (advance w (i_pre r)) (i_works r)) as [[[o tm1] w1]|] eqn:D; [|discriminate].
-    destruct (session VSync fuel t tm1 w1 rest) as [os|] eqn:S; [|discriminate].
+    destruct (session VSync fuel (last_set (i_sets r) t) tm1 w1 rest) as [os|] eqn:S; [|discriminate].
     inversion E; subst. clear E.
     destruct (do_real_run _ _ _ _ _ _ _ _ (advance_ok _ _ Hw) Hworks D) as [Hw1 [NE LL]].
     cbn [eff_tocks]. fold t. constructor; [split; assumption|].
@@ -814,7 +814,7 @@ Proof.
   - cbn [asession] in E. inversion Hr as [|? ? [Hpre Hworks] Hrest]; subst.
     set (t := match i_tock r with Some x => x | None => tock end) in *.
     destruct (ado_real fuel t (advance w (i_pre r)) (i_works r)) as [[o w1]|] eqn:D; [|discriminate].
-    destruct (asession fuel t w1 rest) as [os|] eqn:S; [|discriminate].
+    destruct (asession fuel (last_set (i_sets r) t) w1 rest) as [os|] eqn:S; [|discriminate].
     inversion E; subst. clear E.
     destruct (ado_real_not_early _ _ _ _ _ _ (advance_ok _ _ Hw) Hworks D) as [Hw1 [Hk [He Hl]]].
     cbn [eff_tocks]. fold t. constructor.
